@@ -8,6 +8,7 @@ mod runs;
 mod srv;
 mod sse;
 mod surface;
+mod tasklife;
 mod sub;
 mod store;
 mod util;
@@ -45,6 +46,8 @@ fn main() {
         "pathguard" => fsops::engine_pathguard(&rt, cases, &mut out),
         "ckpt" => fsops::engine_ckpt(&rt, cases, &mut out),
         "surface" => surface::engine_surface(cases, &mut out),
+        "tasklife" => tasklife::engine_tasklife(&rt, cases, &mut out),
+        "shellcap" => tasklife::engine_shellcap(&rt, cases, &mut out),
         "auth" => auth::engine_auth(cases, &mut out),
         "wslock" => wslock::engine_wslock(&rt, cases, &mut out),
         "runs" => {
